@@ -4,8 +4,10 @@ import (
 	"errors"
 	"os"
 	"sync"
+	"time"
 
 	"github.com/ozontech/file.d/pipeline"
+	"go.uber.org/zap"
 
 	vf "github.com/ozontech/file.d/zzverif"
 )
@@ -85,6 +87,7 @@ func VerifH_C07_saveProtocol() {
 	job.offsets.Set("s", 5)
 	job2 := verifJob(2, "g", 20)
 	job2.offsets.Set("t", 7)
+	job2.offsets.Set("z", 0) // a stream whose first event is not committed yet is a stream of the table too
 	jobs := map[pipeline.SourceID]*Job{1: job, 2: job2}
 	saves := 1 + vf.Choose("saves", vf.Param("SAVES", 2))
 	for i := 0; i < saves; i++ {
@@ -123,6 +126,10 @@ func VerifH_C07_saveProtocol() {
 				vf.Assert(err == nil, "renamed-snapshot-loads")
 				if err == nil {
 					ok := len(loaded) == 2 && loaded[1] != nil && loaded[2] != nil && loaded[1].streams["s"] == 5 && loaded[2].streams["t"] == 7
+					if ok {
+						z, has := loaded[2].streams["z"]
+						ok = has && z == 0 && len(loaded[2].streams) == 2 && len(loaded[1].streams) == 1
+					}
 					vf.Assert(ok, "renamed-snapshot-is-the-current-table")
 				}
 			}
@@ -232,17 +239,22 @@ func VerifH_C07_snapshotNotAhead() {
 	job := verifJob(1, "f", 10)
 	jp.jobs[1] = job
 	started := int64(0)
+	finished := int64(0)
 	done := make(chan struct{}, 3)
 	go func() {
 		for i := 1; i <= vf.Param("C", 2); i++ {
 			started = int64(i)
 			jp.commit(pipeline.VerifNewEvent(1, int64(i), uint64(i), "s"))
+			finished = int64(i)
 		}
 		done <- struct{}{}
 	}()
 	savers := vf.Param("SAVERS", 2)
+	finishedBeforeSave := make([]int64, savers)
 	for s := 0; s < savers; s++ {
+		s := s
 		go func() {
+			finishedBeforeSave[s] = finished
 			jp.offsetDB.save(jp.jobs, jp.jobsMu)
 			done <- struct{}{}
 		}()
@@ -265,6 +277,10 @@ func VerifH_C07_snapshotNotAhead() {
 				continue
 			}
 			vf.Assert(err == nil, "snapshot-loads")
+			if err == nil && savers == 1 && finishedBeforeSave[0] >= 1 {
+				// a commit that completed before the save began is in the snapshot (a busy job is waited for, not skipped)
+				vf.Assert(got[1] != nil && got[1].streams["s"] >= finishedBeforeSave[0], "snapshot-holds-what-was-committed-before-the-save")
+			}
 			if err == nil && got[1] != nil {
 				off := got[1].streams["s"]
 				vf.Assert(off >= 1 && off <= started, "snapshot-holds-a-committed-offset")
@@ -319,4 +335,61 @@ func VerifH_C07_syncModeSnapshotComplete() {
 	if len(last) == 2 {
 		vf.Reach("two-sources-committed")
 	}
+}
+
+// stubs for jobProvider.start: no file system watcher, no statistics, no maintenance
+func verifStubWatcherStart(w *watcher)     {}
+func verifStubReportStats(jp *jobProvider) {}
+func verifStubMaintenance(jp *jobProvider) {}
+
+// C07.H6: the provider as it is started in the default persistence mode (async): the periodic saver it
+// starts follows the same protocol as a direct save - complete write, fsync, then rename - and its
+// snapshot holds what was committed.
+func VerifH_C07_asyncStartSaves() {
+	verifTrace, verifFaults = nil, false
+	jp := verifNewProvider()
+	jp.config.PersistenceMode_ = persistenceModeAsync
+	jp.config.AsyncInterval_ = 100 * time.Millisecond
+	jp.config.OffsetsOp_ = offsetsOpReset
+	jp.stopSaveOffsetsCh = make(chan bool)
+	if !vf.Symbolic() {
+		jp.logger = zap.NewNop().Sugar()
+	}
+	jp.offsetDB = newOffsetDB("offsets.yaml", "offsets.tmp")
+	jp.jobs[1] = verifJob(1, "f", 10)
+	jp.start()
+	C := 1 + vf.Choose("commits", vf.Param("C", 2))
+	for i := 1; i <= C; i++ {
+		jp.commit(pipeline.VerifNewEvent(1, int64(i*10), uint64(i), "s"))
+		if vf.Choose("pause", 2) == 1 {
+			time.Sleep(150 * time.Millisecond)
+		}
+	}
+	vf.Quiesce(300)
+	written, synced, renames := false, false, 0
+	var payload []byte
+	for _, t := range verifTrace {
+		switch t.op {
+		case "open":
+			written, synced = false, false
+		case "write":
+			written, payload = t.ok, t.data
+		case "sync":
+			synced = t.ok && written
+		case "rename":
+			renames++
+			vf.Assert(written, "rename-only-after-successful-write")
+			vf.Assert(synced, "rename-only-after-successful-fsync")
+		}
+	}
+	if vf.Param("twin", 0) == 1 {
+		vf.Assert(renames == 0, "periodic-saver-saved-after-commits")
+		return
+	}
+	vf.Assert(renames >= 1, "periodic-saver-saved-after-commits")
+	if renames >= 1 {
+		got, err := jp.offsetDB.parse(string(payload))
+		vf.Assert(err == nil && got[1] != nil && got[1].streams["s"] == int64(C*10), "last-snapshot-holds-the-last-commit")
+	}
+	vf.Reach("async-saver-ran")
 }
